@@ -119,21 +119,31 @@ func runFormatVerb(d0 *apd.Decimal, flags int, width int, verb byte) string {
 	})
 }
 
-func runCompose(d0 *apd.Decimal) string {
-	return guard("cd "+encDec(d0), func() string {
+// cd <d> <prev> => <form> <neg> <coefficient bytes> <exponent> <composed | err>
+// The destination of Compose holds prev beforehand (a fresh Decimal, or a dirty one: NaN, Infinity, another number).
+func runCompose(d0, prev *apd.Decimal) string {
+	return guard("cd "+encDec(d0)+" "+encDec(prev), func() string {
 		d := clone(d0)
 		form, neg, coeff, e := d.Decompose(nil)
-		var out apd.Decimal
+		n := "0"
+		if neg {
+			n = "1"
+		}
+		head := fmt.Sprintf("%d %s %s %d ", form, n, hx(string(coeff)), e)
+		out := clone(prev)
 		if err := out.Compose(form, neg, coeff, e); err != nil {
-			return "err"
+			return head + "err"
 		}
 		// also through a caller-supplied buffer
 		form2, neg2, coeff2, e2 := d.Decompose(make([]byte, 0, 64))
-		var out2 apd.Decimal
-		if err := out2.Compose(form2, neg2, coeff2, e2); err != nil || encDec(&out2) != encDec(&out) {
-			return "err"
+		out2 := clone(prev)
+		if err := out2.Compose(form2, neg2, coeff2, e2); err != nil || encDec(out2) != encDec(out) {
+			return head + "err"
 		}
-		return encDec(&out)
+		if encDec(d) != encDec(d0) {
+			return head + "err" // Decompose modified its receiver
+		}
+		return head + encDec(out)
 	})
 }
 
@@ -373,7 +383,11 @@ func init() {
 				}
 				emit(runFormatVerb(d, r.intn(16), w, "eEfFgGvs"[r.intn(8)]))
 			case 7:
-				emit(runCompose(r.textDec()))
+				prev := new(apd.Decimal)
+				if r.coin(60) {
+					prev = r.textDec()
+				}
+				emit(runCompose(r.textDec(), prev))
 			default:
 				ctx := r.genCtx(true)
 				s := r.grammarStringL(ctx.MaxExponent > 1000)
@@ -394,7 +408,7 @@ func init() {
 	replayers["fm"] = func(f []string) { emit(runFormat(decDec(f[1]))) }
 	replayers["fx"] = func(f []string) { emit(runFormatExtreme(decDec(f[1]))) }
 	replayers["ps"] = func(f []string) { emit(runParse(unhex(f[1]))) }
-	replayers["cd"] = func(f []string) { emit(runCompose(decDec(f[1]))) }
+	replayers["cd"] = func(f []string) { emit(runCompose(decDec(f[1]), decDec(f[2]))) }
 	replayers["fv"] = func(f []string) {
 		var fl int
 		fmt.Sscan(f[2], &fl)
